@@ -128,7 +128,9 @@ def check_property(pid, tier, seed):
         for f in r['failures']:
             if f['id'].endswith(CANARY_ID):
                 continue
-            only = spec.get('only')
+            only = (spec.get('only') or {}).get(r['unit'])
+            if only and not re.search(only, f['id']):
+                continue
             failures.append({'id': f['id'], 'backend': 'verus', 'message': f['message'], 'detail': f['rendered'], 'unit': r['unit'], 'input': None})
     for r in kani_results:
         for f in r['failures']:
